@@ -44,6 +44,11 @@ def build(features=("verif",), release=False, repo=None, quiet=True):
 
     def run(feats):
         cmd = ["cargo", "build", "--offline"]
+        if not release:
+            # optimise only the password-hash dependencies (0.17 s -> ms per verification); the
+            # server's own crate keeps the plain debug profile with all its runtime checks
+            for pkg in ("argon2", "blake2", "password-hash", "digest", "block-buffer"):
+                cmd += ["--config", "profile.dev.package.%s.opt-level=3" % pkg]
         if release:
             cmd.append("--release")
         if feats:
